@@ -7,6 +7,8 @@ C36 — removing a credential revokes its sessions.  Transcribed from
   `ValueSetOauth2Session::{insert_checked, remove}`      (valueset/session.rs)
 * `IdmServerTransaction::check_oauth2_account_uuid_valid` (idm/server.rs:643) — the test every
   OAuth2 token use goes through (refresh, introspect, userinfo)
+* `Entry::invalidate` (entry.rs:2310) — every local modify first trims every value set at
+  `trim_cid = cid − CHANGELOG_MAX_AGE` (`ValueSet{Session,Oauth2Session}::trim` = C11's model)
 * replication: `ValueSet{Session,Oauth2Session}::repl_merge_valueset` = C11's model
   (`SessionMerge.lean`, imported); the plugin does **not** run on incoming replicated entries
   (`Plugins::run_pre_repl_incremental` has the call commented out).
@@ -223,9 +225,23 @@ def applyMod (cid : Nat) (e : Entry) : Mod → Entry
   | .revokeO2 o => { e with o2s := revokeKey cid o e.o2s }
   | .touch => e
 
+/-- `CHANGELOG_MAX_AGE` in nanoseconds. -/
+def changelogMaxAge : Nat := changelogMaxAgeSecs * nsPerSec
+
+/-- `let trim_cid = cid.sub_secs(CHANGELOG_MAX_AGE)?` of `QueryServer::write` (change ids are
+their timestamps in nanoseconds here; an underflow is an error in the code and `0` here). -/
+def trimCidOf (cid : Nat) : Nat := cid - changelogMaxAge
+
+/-- `Entry::invalidate(cid, trim_cid)`, the first thing every local modify does to a candidate:
+`for vs in self.attrs.values_mut() { vs.trim(trim_cid); }` — C11's `ValueSetSession::trim`
+(revocations older than `trim_cid` dropped, then the forced trim down to `SESSION_MAXIMUM`) and
+`ValueSetOauth2Session::trim`. -/
+def trimEntry (t : Nat) (e : Entry) : Entry :=
+  { e with uats := e.uats.map (sessTrimAll t), o2s := trimRevoked o2Trim t e.o2s }
+
 /-- One event of a history. -/
 inductive Op where
-  /-- a local modify at time `ct` with change id `cid`: modlist, then the plugin -/
+  /-- a local modify at time `ct` with change id `cid`: trim, modlist, then the plugin -/
   | write (m : Mod) (ct cid : Nat)
   /-- an incoming replicated state of the same entry; `newer` = the incoming attribute's cid is
   the larger one (`Entry::merge_state` takes it as `self`), `t` = trim cid.  The credential
@@ -240,8 +256,11 @@ def mergeUats (own inc : Option SMap) (incNewer : Bool) (t : Nat) : Option SMap 
   | none, some b => some b
   | none, none => none
 
+/-- The modlist and the plugin on an (already trimmed) candidate. -/
+def stepCore (e : Entry) (m : Mod) (ct cid : Nat) : Entry := plugin ct cid (applyMod cid e m)
+
 def step (e : Entry) : Op → Entry
-  | .write m ct cid => plugin ct cid (applyMod cid e m)
+  | .write m ct cid => stepCore (trimEntry (trimCidOf cid) e) m ct cid
   | .merge inc un on tc t =>
     { (if tc then { e with primary := inc.primary, passkeys := inc.passkeys,
                            attested := inc.attested, oauth2Cred := inc.oauth2Cred } else e) with
